@@ -627,6 +627,9 @@ def make_exc(kind):
     return {'BrokenPipeError': BrokenPipeError(32, 'Broken pipe'),
             'InterruptedError': InterruptedError(4, 'Interrupted system '
                                                     'call'),
+            'TimeoutError': TimeoutError('timed out'),
+            'BlockingIOError': BlockingIOError(
+                11, 'Resource temporarily unavailable'),
             'KeyError': KeyError('sink')}[kind]
 
 
@@ -646,7 +649,7 @@ class FailingSink(Sink):
 
 
 READ_FAILS = ('ConnectionResetError', 'InterruptedError', 'KeyError',
-              'end of stream')
+              'TimeoutError', 'BlockingIOError', 'end of stream')
 
 
 class FailingStream(object):
@@ -670,6 +673,11 @@ class FailingStream(object):
                 if self.kind == 'ConnectionResetError' \
                 else make_exc(self.kind)
         return self.b.read(n)
+
+    def refill(self, data):
+        """the same object, from now on an ordinary stream over `data` (a
+        reader that keeps one buffer object and refills it per message)"""
+        self.b, self.k, self.kind, self.calls = io.BytesIO(data), 0, None, 0
 
 
 class PrefixSink(object):
@@ -792,6 +800,22 @@ def run_history(ctx, h, before=()):
                           % (t1, enc.hex(), 'returned nothing' if
                              kind == 'end of stream' else 'raised ' + kind,
                              k), case)
+        # the same stream object, refilled: what it yields now is all that
+        # may matter, not what happened to a read on it before
+        enc2 = ref.varnum(n2)
+        st.refill(enc2 + SENTINEL)
+        try:
+            back = (types()[t2].read(st), st.b.tell())
+        except BaseException as e:
+            back = e
+        ctx.cls('history: failed read, then the same stream object refilled')
+        if back != (n2, len(enc2)):
+            ctx.violation('%s: %s.read on the same stream object refilled'
+                          % (pre, t2),
+                          '%s, the same stream object was given the new '
+                          'content %s + a5: %s.read = %r, expected %r'
+                          % (pre, enc2.hex(), t2, back, (n2, len(enc2))),
+                          case)
         target = Sink()
         where = 'a fresh sink'
     else:
@@ -1041,6 +1065,9 @@ REQUIRED_CLASSES = [
     'history: read failed with ConnectionResetError',
     'history: read failed with InterruptedError',
     'history: read failed with KeyError',
+    'history: read failed with TimeoutError',
+    'history: read failed with BlockingIOError',
+    'history: failed read, then the same stream object refilled',
     'history: read failed with end of stream', 'history: fresh process',
 ]
 
